@@ -35,6 +35,9 @@ Check(r) ==
   CASE r.op = "stream" -> CheckStream(r)
     \* 128 bytes of a huge keystream at a given block index (r.ic): they are the first 128 bytes of the keystream started there
     [] r.op = "stream_at" -> r.ret = 0 /\ r.bytes = Keystream(r)
+    \* a secretstream chunk longer than 2^32 bytes: pulled in place it yields the (zero) message, the tag pushed, the length, and the
+    \* two states stay byte-identical for the next chunk (its ciphertext bytes are judged by the stream_at records next to it)
+    [] r.op = "ss_huge" -> r.ret_push = 0 /\ r.ret_pull = 0 /\ r.mlen_ok /\ r.tag = 0 /\ r.zeros /\ r.sync
     [] r.op = "ietf_limit" -> (r.outcome = "misuse") = IETFWouldWrap(LE32(r.ic, 1), r.len) /\ r.outcome # "error"
     [] r.op = "hchacha20" -> r.out = (IF r.wc = 1 THEN HChaCha20C(r.k, r.in, r.c) ELSE HChaCha20(r.k, r.in))
     [] r.op = "hsalsa20" -> r.out = (IF r.wc = 1 THEN S!HSalsa20C(r.k, r.in, r.c) ELSE S!HSalsa20(r.k, r.in))
